@@ -1691,4 +1691,62 @@ theorem span_two_runs (A : List α) (n : α) (B : List α) (hn : isFront sg n = 
 
 end decl
 
+/-! ## Part 10: naturality — annotating the vertices (signs / signed distances carried along as data) -/
+
+section nat
+variable {γ : Type} (sg : γ → Int) (cross : γ → γ → β) (keep : γ → β) (g : α → γ)
+
+theorem isFront_comp : (fun a => isFront sg (g a)) = isFront (fun a => sg (g a)) := rfl
+
+theorem sliceSpanG_natural (vs : List α) :
+    sliceSpanG sg cross keep (vs.map g) =
+      sliceSpanG (fun a => sg (g a)) (fun a b => cross (g a) (g b)) (fun a => keep (g a)) vs := by
+  unfold sliceSpanG
+  have hq : ((fun a => !isFront sg a) ∘ g) = (fun a => !isFront (fun a => sg (g a)) a) := rfl
+  have hp : (isFront sg ∘ g) = isFront (fun a => sg (g a)) := rfl
+  simp only [List.takeWhile_map, List.dropWhile_map, hq, hp, List.head?_map, List.getLast?_map]
+  generalize vs.takeWhile (fun a => !isFront (fun a => sg (g a)) a) = pre
+  generalize vs.dropWhile (fun a => !isFront (fun a => sg (g a)) a) = rest
+  generalize rest.takeWhile (isFront (fun a => sg (g a))) = run
+  generalize rest.dropWhile (isFront (fun a => sg (g a))) = post
+  cases hh : run.head? with
+  | none => rfl
+  | some first =>
+    cases hl : run.getLast? with
+    | none => rfl
+    | some last =>
+      simp only [Option.map_some, List.any_map, hp, List.isEmpty_map, List.map_map]
+      have he : entryRows sg cross keep (pre.map g) (g first) =
+          entryRows (fun a => sg (g a)) (fun a b => cross (g a) (g b)) (fun a => keep (g a)) pre first := by
+        unfold entryRows
+        rw [List.getLast?_map]
+        cases pre.getLast? <;> rfl
+      have hx : exitRows sg cross keep (g last) (post.map g) =
+          exitRows (fun a => sg (g a)) (fun a b => cross (g a) (g b)) (fun a => keep (g a)) last post := by
+        unfold exitRows
+        rw [List.head?_map]
+        cases post.head? <;> rfl
+      rw [he, hx]
+      rfl
+
+theorem sliceSpecG_natural (closed : Bool) (vs : List α) :
+    sliceSpecG sg cross keep closed (vs.map g) =
+      sliceSpecG (fun a => sg (g a)) (fun a b => cross (g a) (g b)) (fun a => keep (g a)) closed vs := by
+  unfold sliceSpecG
+  cases closed with
+  | false => simpa using sliceSpanG_natural sg cross keep g vs
+  | true =>
+    simp only [if_true]
+    unfold sliceSpecClosedG
+    have hp : (isFront sg ∘ g) = isFront (fun a => sg (g a)) := rfl
+    simp only [List.takeWhile_map, List.dropWhile_map, hp]
+    cases vs.dropWhile (isFront (fun a => sg (g a))) with
+    | nil => rfl
+    | cons a n =>
+      simp only [List.map_cons]
+      have := sliceSpanG_natural sg cross keep g (a :: n ++ vs.takeWhile (isFront (fun a => sg (g a))) ++ [a])
+      simpa using this
+
+end nat
+
 end PW.SBP
